@@ -73,3 +73,50 @@ Definition and_m (a b : option bool) : option bool :=
   match a with Some true => b | Some false => Some false | None => None end.
 Definition or_m (a b : option bool) : option bool :=
   match a with Some true => Some true | Some false => b | None => None end.
+
+(* ---------------------------------------------------------------- slicing, justification, numbers *)
+Definition substr (s : str) (a b : nat) : str := firstn (b - a) (skipn a s).      (* s[a:b], clamping *)
+Definition space : ascii := " "%char.
+Definition ljust (w : nat) (s : str) : str := s ++ repeat space (w - length s).
+Definition rjust (w : nat) (s : str) : str := repeat space (w - length s) ++ s.
+
+From Coq Require Import DecimalString DecimalN NArith.
+Definition n_str (n : N) : str := list_ascii_of_string (NilZero.string_of_uint (N.to_uint n)).
+Definition z_str (v : Z) : str := (if (v <? 0)%Z then ["-"%char] else []) ++ n_str (Z.abs_N v).
+Fixpoint pow10 (d : nat) : N := match d with 0 => 1%N | S d' => (10 * pow10 d')%N end.
+Definition pad0 (w : nat) (s : str) : str := repeat "0"%char (w - length s) ++ s.
+(* f"{v:W.Df}" of the fixed-point number v / 10^D *)
+Definition fmt_fixed (width dec : nat) (v : Z) : str :=
+  let a := Z.abs_N v in
+  rjust width ((if (v <? 0)%Z then ["-"%char] else []) ++ n_str (a / pow10 dec) ++ ["."%char] ++ pad0 dec (n_str (a mod pow10 dec))).
+
+Fixpoint digits_val (s : str) (acc : N) : option N :=
+  match s with
+  | [] => Some acc
+  | c :: s' => if is_digit_char c then digits_val s' (acc * 10 + N.of_nat (nat_of_ascii c - 48))%N else None
+  end.
+(* plain decimal integer with optional sign: what pd.to_numeric / int() accept among the texts we generate *)
+Definition parse_z (s : str) : option Z :=
+  match s with
+  | [] => None
+  | c :: r =>
+      if Ascii.eqb c "-"%char then match r with [] => None | _ => option_map (fun n => (- Z.of_N n)%Z) (digits_val r 0) end
+      else if Ascii.eqb c "+"%char then match r with [] => None | _ => option_map Z.of_N (digits_val r 0) end
+      else option_map Z.of_N (digits_val s 0)
+  end.
+(* decimal text with at most `dec` fraction digits -> the number times 10^dec *)
+Definition parse_fixed (dec : nat) (s : str) : option Z :=
+  let '(neg, body) := match s with
+                      | c :: r => if Ascii.eqb c "-"%char then (true, r) else if Ascii.eqb c "+"%char then (false, r) else (false, s)
+                      | [] => (false, []) end in
+  let ip := (fix take (l : str) := match l with c :: r => if Ascii.eqb c "."%char then [] else c :: take r | [] => [] end) body in
+  let rest := skipn (length ip) body in
+  let fp := match rest with _ :: f => f | [] => [] end in
+  if (length ip =? 0) && (length fp =? 0) then None
+  else if dec <? length fp then None
+  else match digits_val ip 0, digits_val fp 0 with
+       | Some i, Some f =>
+           let v := (Z.of_N i * Z.of_N (pow10 dec) + Z.of_N f * Z.of_N (pow10 (dec - length fp)))%Z in
+           Some (if neg then (- v)%Z else v)
+       | _, _ => None
+       end.
